@@ -6,11 +6,13 @@
 (* Discovery.tla.                                                          *)
 (*                                                                         *)
 (* Abstract values: kinds are naturals ordered as in the standard;         *)
-(* durations are 0, 1, 2 and 3 = infinite.                                 *)
+(* durations are 0, 1, 2, 3 = the largest finite duration (i32::MAX s)     *)
+(* and 4 = infinite.                                                       *)
 (***************************************************************************)
 EXTENDS Integers, Sequences, FiniteSets, TLC, Json
 
-INF == 3
+INF == 4
+MAXFIN == 3     \* finite, but its seconds equal those of the infinite sentinel on the wire
 Groups == {"durability", "reliability", "liveliness", "deadline", "latency", "destorder", "ownership",
            "presentation", "representation"}
 
@@ -18,9 +20,9 @@ Groups == {"durability", "reliability", "liveliness", "deadline", "latency", "de
 Values(g) ==
     CASE g = "durability" -> [o : 0..3, r : 0..3]
       [] g = "reliability" -> [o : 0..1, r : 0..1]
-      [] g = "liveliness" -> [ok : 0..2, ol : {1, 2, INF}, rk : 0..2, rl : {1, 2, INF}]
-      [] g = "deadline" -> [o : {1, 2, INF}, r : {1, 2, INF}]
-      [] g = "latency" -> [o : {0, 1, INF}, r : {0, 1, INF}]
+      [] g = "liveliness" -> [ok : 0..2, ol : {1, 2, MAXFIN, INF}, rk : 0..2, rl : {1, 2, MAXFIN, INF}]
+      [] g = "deadline" -> [o : {1, 2, MAXFIN, INF}, r : {1, 2, MAXFIN, INF}]
+      [] g = "latency" -> [o : {0, 1, MAXFIN, INF}, r : {0, 1, MAXFIN, INF}]
       [] g = "destorder" -> [o : 0..1, r : 0..1]
       [] g = "ownership" -> [o : 0..1, r : 0..1]
       [] g = "presentation" -> [oa : 0..1, oc : BOOLEAN, oo : BOOLEAN, ra : 0..1, rc : BOOLEAN, ro : BOOLEAN]
